@@ -953,7 +953,9 @@ pub fn main_with(spec: PropSpec, build: impl Fn(&mut Jobs, &Args), finish: impl 
     if args.only.is_none() {
         // the `fast` profile (no debug assertions) repeats a thorough run; its evidence goes to a
         // separate directory so that evidence/<ID>.json always comes from the checked profile
-        let dir = args.root.join(if cfg!(debug_assertions) { "evidence" } else { "evidence_fast" });
+        // (the uninstrumented repeat of the driver names its own directory)
+        let sub = std::env::var("VERIF_EVIDENCE_SUBDIR").ok().filter(|s| !s.is_empty());
+        let dir = args.root.join(sub.as_deref().unwrap_or(if cfg!(debug_assertions) { "evidence" } else { "evidence_fast" }));
         let _ = std::fs::create_dir_all(&dir);
         std::fs::write(dir.join(format!("{}.json", spec.id)), serde_json::to_string_pretty(&ev).unwrap())
             .expect("write evidence");
